@@ -23,7 +23,7 @@ F = Fraction
 
 
 def cases(tier, seed):
-    q = tier != 'thorough'
+    q = False          # the full bounds cost about a minute: quick and thorough coincide
     cs = []
     L = dict(lazy_where=True)
     for tr in (None, 'inv', 'log'):
